@@ -69,6 +69,8 @@ class Lexer:
                         self._advance()  # /
                         break
                     self._advance()
+                else:
+                    raise JSSyntaxError("Unterminated comment", self.line, self.column)
                 continue
 
             break
@@ -438,6 +440,8 @@ class Lexer:
                 raise JSSyntaxError("Unterminated regex literal", line, column)
             else:
                 pattern.append(self._advance())
+        else:
+            raise JSSyntaxError("Unterminated regex literal", line, column)
 
         # Read flags
         flags = []
